@@ -49,6 +49,19 @@ fn spelling(vm: &mut MwVm, s: &str) -> Option<String> {
     }
 }
 
+/// The natural spelling of the symbol named `s`: the name itself, when the reader takes that text for
+/// one identifier (R7RS: an identifier written without escapes names the symbol of that text). This
+/// does not consult string->symbol, so the literal routes are independent of the conversion routes.
+fn natural(s: &str) -> Option<String> {
+    if s.is_empty() || s.contains('\\') || s.contains('|') {
+        return None;
+    }
+    match catch(|| parse::parse_text(s)) {
+        Ok(Ok((Cell::Symbol(t), None))) if t == s => Some(s.to_string()),
+        _ => None,
+    }
+}
+
 const ROUTES: [&str; 8] = ["literal", "quoted-list-element", "quoted-vector-element", "string->symbol", "macro-output", "eval-quoted", "string->symbol-of-computed-string", "quasiquote-element"];
 
 /// (setup forms, expression) producing the symbol named `s` by route `r`; None if the route needs a
@@ -60,6 +73,8 @@ fn route(r: usize, s: &str, sp: &Option<String>, uniq: &str) -> Option<(String, 
         1 => (String::new(), format!("(car (cdr '(other {} 3)))", sp.as_ref()?)),
         2 => (String::new(), format!("(vector-ref '#(1 {}) 1)", sp.as_ref()?)),
         3 => (String::new(), format!("(string->symbol {})", lit)),
+        // (in a template "..." is the ellipsis, not a symbol to produce)
+        4 if sp.as_deref() == Some("...") => return None,
         4 => (format!("(define-syntax mk{u} (syntax-rules () ((_) '{sp})))", u = uniq, sp = sp.as_ref()?), format!("(mk{})", uniq)),
         5 => (String::new(), format!("(eval (list 'quote (string->symbol {})))", lit)),
         6 => {
@@ -145,8 +160,9 @@ pub fn run(ctx: &Ctx, rep: &mut Report) {
             }
             _ => gen_name(&mut rng),
         };
-        let sp1 = spelling(&mut vm, &s1);
-        let sp2 = spelling(&mut vm, &s2);
+        let sp1 = natural(&s1).or_else(|| spelling(&mut vm, &s1));
+        let sp2 = natural(&s2).or_else(|| spelling(&mut vm, &s2));
+        rep.count(if natural(&s1).is_some() { "names_with_natural_literal_spelling" } else { "names_needing_escaped_spelling" }, 1);
         let wit = Json::obj().set("name1", s1.as_str()).set("name2", s2.as_str()).set("spelling1", sp1.clone().unwrap_or_default()).set("spelling2", sp2.clone().unwrap_or_default());
         let id = (ctx.shard, index);
         let cls = name_class(&s1);
